@@ -278,7 +278,21 @@ func verifyLemma(p *Prog, pkg, unit, name string) *UnitResult {
 		e.S.DeclareConst("alloc!0", "Int")
 		env := &Env{e: e, st: st, params: map[string]Val{}, bound: map[string]Val{}, pkg: pkg}
 		env.old = st
-		goal := env.eval(ax.C.E)
+		body := ax.C.E
+		// a top-level universal quantifier is skolemized here so that quantifier-free goals
+		// reach the solvers' quantifier-free engines
+		if q, ok := body.(EQuant); ok && q.Forall {
+			for _, v := range q.Vars {
+				t := p.resolveType(v.Type, pkg, nil)
+				c := e.S.Fresh("sk_"+v.Name, e.sortOf(t))
+				env.bound[v.Name] = term(c, t)
+				if g := e.rangeConstraint(c, t); g != "" && isInteger(t) && !isPlainInt(t) {
+					st.assume(g)
+				}
+			}
+			body = q.Body
+		}
+		goal := env.eval(body)
 		rel := strings.TrimPrefix(strings.TrimPrefix(pkg, modulePath), "/")
 		e.addObl(st, rel+".lemma."+name, "lemma", ax.C.Src, goal.T)
 	}()
